@@ -9,7 +9,12 @@ pub mod state;
 pub mod oracle;
 
 pub mod h_c11;
+pub mod h_members;
+pub mod h_misc;
 pub mod h_probe;
+pub mod h_send;
+pub mod ops_api;
+pub mod ops_data;
 pub mod ops_timer;
 
 /// Declares the harness table. Under Kani every entry becomes a proof harness
@@ -65,9 +70,23 @@ macro_rules! harnesses {
 }
 
 harnesses! {
-    plain: [ (h_probe::zz_smoke, 2) ],
+    plain: [
+        (h_probe::zz_smoke, 2),
+        (h_members::c01_commute, 7),
+        (h_members::c01_idempotent, 7),
+        (h_members::c01_monotone, 7),
+        (h_members::c01_frame, 7),
+        (h_members::c01_exchange, 7),
+        (h_members::c14_next_k3, 8),
+        (h_members::c14_next_k4, 8),
+        (h_members::c14_next_k5, 8),
+        (h_misc::c08_accumulating_runtime, 7),
+    ],
     stubbed: [
         (h_c11::c11_timeout_iff, 7),
+        (h_c11::c11_timeout_iff_k3, 7),
+        (h_misc::c17_announce_payload, 7),
+        (h_misc::a_own_state_noop, 7),
         (ops_timer::c13_stale_probe, 7),
         (ops_timer::c13_stale_indirect, 7),
         (ops_timer::c13_stale_suspect, 7),
@@ -82,5 +101,70 @@ harnesses! {
         (ops_timer::t_announce, 7),
         (ops_timer::t_gossip, 7),
         (ops_timer::t_announce_down, 7),
+        (ops_api::a_apply1_k1, 7),
+        (ops_api::a_apply1_k2, 7),
+        (ops_api::a_apply1_k3, 7),
+        (ops_api::a_announce, 7),
+        (ops_api::a_gossip, 7),
+        (ops_api::a_leave, 7),
+        (ops_api::a_change_identity, 7),
+        (ops_api::a_reuse, 7),
+        (h_send::c07_send_pb_9, 7),
+        (h_send::c07_send_pb_10, 7),
+        (h_send::c07_send_pb_12, 7),
+        (h_send::c07_send_pb_13, 7),
+        (h_send::c07_send_pb_16, 7),
+        (h_send::c07_send_pb_17, 7),
+        (h_send::c07_send_pb_21, 7),
+        (h_send::c07_send_pb_22, 7),
+        (h_send::c07_send_pb_27, 7),
+        (h_send::c07_send_pb_32, 7),
+        (h_send::c07_send_feed_12, 7),
+        (h_send::c07_send_feed_17, 7),
+        (h_send::c07_send_feed_22, 7),
+        (h_send::c07_send_feed_32, 7),
+        (h_send::c07_send_feed_failing, 7),
+        (h_send::c07_send_bare_10, 7),
+        (h_send::c07_send_bare_32, 7),
+        (h_send::c07_send_bcast_14, 7),
+        (h_send::c07_send_bcast_15, 7),
+        (h_send::c07_send_bcast_32, 7),
+        (h_misc::c17_oversize, 7),
+        (h_misc::c17_bad_header, 7),
+        (h_misc::c17_bad_member, 7),
+        (h_misc::c17_trailing_byte, 7),
+        (h_misc::c06_fuzz_gossip_7, 7),
+        (h_misc::c06_fuzz_gossip_9, 7),
+        (h_misc::c06_fuzz_ping_7, 7),
+        (h_misc::c06_fuzz_broadcast_5, 7),
+        (h_misc::c06_fuzz_feed_2, 7),
+        (h_misc::c06_fuzz_turnundead_3, 7),
+        (h_misc::c06_set_config_same, 7),
+        (h_misc::c06_set_config_grow, 7),
+        (h_misc::c06_set_config_shrink, 7),
+        (h_misc::c16_add_broadcast, 7),
+        (h_misc::c16_broadcast_empty, 7),
+        (h_misc::c16_broadcast_one, 7),
+        (ops_data::d_ping, 7),
+        (ops_data::d_ack, 7),
+        (ops_data::d_pingreq, 7),
+        (ops_data::d_indirect_ping, 7),
+        (ops_data::d_indirect_ack, 7),
+        (ops_data::d_fwd_ack, 7),
+        (ops_data::d_announce, 7),
+        (ops_data::d_announce_k2, 7),
+        (ops_data::d_feed, 7),
+        (ops_data::d_gossip, 7),
+        (ops_data::d_broadcast, 7),
+        (ops_data::d_turn_undead, 7),
+        (ops_data::d_turn_undead_k2, 7),
+        (ops_data::d_ping_upd, 7),
+        (ops_data::d_ping_upd_k2, 7),
+        (ops_data::d_gossip_upd, 7),
+        (ops_data::d_gossip_upd_k2, 7),
+        (ops_data::d_feed_upd, 7),
+        (ops_data::d_ack_upd, 7),
+        (ops_data::d_gossip_custom, 7),
+        (ops_data::d_broadcast_custom, 7),
     ]
 }
